@@ -154,10 +154,16 @@ def render_body(b, mode="full", vn=None):
     return "%s %s %s" % (ls, _OPTXT[k], rs)
 
 def render_clause(c, mode="full"):
-    h = render_term(c["h"])
+    vn = None
+    if mode.startswith("names:"):
+        # named variables spelled like names a compiler might generate itself (`_G1`, `_x1`, `X1`, `_1`, ...)
+        fmt = mode[6:]
+        vn = lambda i: "_" if i >= 900 else fmt % (i + 1)
+        mode = "full"
+    h = render_term(c["h"], vn)
     if c["body"] == TRUE:
         return h + "."
-    return h + " :- " + render_body(c["body"], mode) + "."
+    return h + " :- " + render_body(c["body"], mode, vn) + "."
 
 def render_script(script, mode="full"):
     """script: {key: [clauses]} ; clauses of one key are kept together, keys in the given order.
